@@ -79,9 +79,22 @@ def crash_case(case, model, rep):
     seed, max_runs, prior = case["seed"], case["max"], case["prior"]
     repo, rng = setup(seed, max_runs, prior)
     try:
-        before = snapshot(repo, max_runs)
         m = model.ask({"op": "store", "max": max_runs, "runs": [{"doc": i + 1, "logs": []} for i in range(prior)]})
         nxt = m["next"]
+        lowered = case.get("lower_to")
+        if lowered:
+            # the retention limit is lowered (still >= 2) between the completed runs and the run that
+            # is killed: what was recorded stays recorded
+            repo.cfg["max_retained_runs"] = lowered
+            repo.write_config()
+            rep.count("limit_lowered")
+        before = snapshot(repo, max_runs)
+        ptr_before = None
+        try:
+            import json as _json0
+            ptr_before = _json0.load(open(os.path.join(repo.out_dir, "tracking", "run.json")))["id"]
+        except (OSError, ValueError):
+            pass
         repo.set_plan(crash_plan())
         repo.clear_traces()
         if "point" in case:
@@ -112,7 +125,7 @@ def crash_case(case, model, rep):
             ptr_now = _json.load(open(os.path.join(repo.out_dir, "tracking", "run.json")))["id"]
         except (OSError, ValueError):
             pass
-        if ptr_now == nxt and (m["pointer"] != nxt):
+        if (ptr_now == nxt and (m["pointer"] != nxt)) if not lowered else (ptr_now is not None and ptr_now != ptr_before):
             # the kill came after the atomic pointer rename: the killed run is the last completed
             # run. Its records must be complete and addressable.
             rep.count("killed_after_commit")
@@ -130,6 +143,8 @@ def crash_case(case, model, rep):
         if after["checkpoint"] != before["checkpoint"]:
             problems.append("checkpoint changed")
         for i in range(1, max_runs + 1):
+            if lowered and i != ptr_before:
+                continue       # which slot the killed run was rebuilding depends on the new limit
             if i != nxt and after["by_id"].get(i) != before["by_id"].get(i):
                 problems.append("log show --id %d changed" % i)
         if problems:
@@ -153,7 +168,7 @@ def crash_case(case, model, rep):
             ptr = json.load(open(os.path.join(repo.out_dir, "tracking", "run.json")))["id"]
         except (OSError, ValueError):
             pass
-        if ptr != nxt:
+        if ptr != nxt and not lowered:
             rep.disagree({"kind": "pointer after the recovery run differs from the model", "case": case, "observed": ptr, "model": nxt})
         rep.sample(case)
     finally:
@@ -181,8 +196,12 @@ def main():
             nrand = (60 if args["tier"] == "thorough" else 6) * args["budget"]
             for _ in range(nrand):
                 cases.append({"seed": seed, "max": mx, "prior": prior, "delay_ms": rng.range(1, 140)})
-    with ThreadPoolExecutor(max_workers=10) as ex:
-        list(ex.map(lambda c: crash_case(c, model, rep), cases))
+        # histories in which the retention limit was lowered before the killed run
+        for (mx, prior, low) in ([(3, 3, 2)] if args["tier"] == "quick" else [(3, 3, 2), (5, 5, 2), (5, 4, 3)]):
+            seed = rng.next()
+            for _ in range((30 if args["tier"] == "thorough" else 5) * args["budget"]):
+                cases.append({"seed": seed, "max": mx, "prior": prior, "lower_to": low, "delay_ms": rng.range(1, 140)})
+    scen.run_cases(lambda c: crash_case(c, model, rep), cases, rep, 10)
     scen.finish(args, rep, t0, model)
 
 
